@@ -353,6 +353,21 @@ def clause4_taint(ctx, P, cg):
             nsink += 1
             ctx.ob("C08.4 R-TAINT", f, Q.ordinal_site(f, st, P), False,
                    "password-derived value stored into %s at %s" % (fmt_term(dt), st.loc))
+    # the raw bytes of a request (which may be an authenticate / passwd request, well-formed or not) are never logged
+    T2 = Taint(P, cg)
+    pm = P.fn("parse.c:parse_message")
+    T2.add_source(pm, 0, "raw request bytes (parse_message msg)")
+    T2.out_props = {"cJSON_ParseWithLengthOpts": (0, 2), "cJSON_ParseWithOpts": (0, 1)}
+    T2.run()
+    nraw = 0
+    for (f, call, k, origin) in T2.sink_hits():
+        name = P.srcname_of(call.callee) if call.callee else "indirect call"
+        if name.startswith(("log_", "jet_log", "printf", "fprintf", "syslog", "vsyslog", "fputs", "puts")):
+            nraw += 1
+            ctx.ob("C08.4 R-TAINT", f, Q.ordinal_site(f, call, P) + ":raw-bytes", False,
+                   "%s are passed to %s (argument %d) at %s: a malformed authenticate / passwd request puts the password into the log"
+                   % (origin, name, k, call.loc))
+    ctx.ob("C08.4 R-TAINT", pm, "raw-request-bytes-not-logged", nraw == 0, "raw request bytes reach a log function")
     ctx.note("password taint: %d sources, %d tainted values, %d external sink call sites examined"
              % (nsrc, T.n_tainted(), nsink))
     ctx.floor("C08.4 R-TAINT", 2)
@@ -397,6 +412,29 @@ def clause5_origin(ctx, P):
                        "reinterpretation guarded by family test", witness=w)
     if n < 2:
         raise AnalysisBroken("sockaddr reinterpretation sites not found")
+    # "local" is decided by comparing the WHOLE address: every memcmp against a socket address covers all its bytes
+    il = P.fn("linux_io.c:is_localhost")
+    SIZES = {"sin_addr": 4, "sin6_addr": 16}
+    ncmp = 0
+    for c in il.calls("memcmp"):
+        ts = [P.term(il, c.a[0]), P.term(il, c.a[1])]
+        fld = None
+        whole = False
+        for t in ts:
+            for nm in SIZES:
+                if Q.mentions(t, lambda x, nm=nm: x[0] == "field" and x[3] == nm):
+                    fld = nm
+                    # offset 0 into the address: no index / byte offset with a non-zero constant on the way
+                    whole = not Q.mentions(t, lambda x: (x[0] == "index" and x[2] != ("const", 0)) or (x[0] == "byteoff" and x[2] != 0))
+        if fld is None:
+            continue
+        ncmp += 1
+        nbytes = P.const_int(c.a[2])
+        ctx.ob("C08.5 R-PAIR", il, Q.ordinal_site(il, c, P) + ":whole-address-compared", whole and nbytes == SIZES[fld],
+               "is_localhost() compares %s bytes of the %s-byte address%s: addresses that agree with a loopback address only in the "
+               "compared part are classified local (e.g. fd00::ffff:7f00:1)" % (nbytes, SIZES[fld], "" if whole else " from an offset"))
+    if ncmp < 3:
+        raise AnalysisBroken("is_localhost: address comparisons found: %d" % ncmp)
     # local-only gate
     add = P.fn("element.c:add_element_to_peer")
     is_local_cfg = P.meta.get("config") == "localadd"
